@@ -37,4 +37,6 @@ WellFormed ==
        /\ (f.k = "trunc" => Len(b1) = f.pos)
        /\ (f.k = "flip" => \E i \in 1..Len(Probe) : b1[i] # Probe[i])
 Emit == PrintT(<<"REPLAY", ToJson(c)>>)
+\* simulation: only the complete sequences (the simulator evaluates the invariant on every successor it generates)
+EmitFull == c.k = "seq" /\ Len(c.fs) = MaxFaults => PrintT(<<"REPLAY", ToJson(c)>>)
 =============================================================================
